@@ -30,7 +30,7 @@ SPEC = {
 PLAN = {"quick": {"cases": 1500}, "thorough": {"cases": 20000}}
 
 HEADERS = [["", "", ""], ["benzene - a ring", "  -ISIS-  0927261200", "comment ending with dash-"], ["M  V30 x-", "  prog", "M  END"], ["x" * 79, "y" * 79, "z" * 79],
-           ["M  V30 BEGIN CTAB", "M  V30 COUNTS 9 9 0 0 0", "  0  0  0     0  0            999 V2000"], ["$$$$", "> <x>", "V3000"],
+           ["M  V30 BEGIN CTAB", "M  V30 COUNTS 9 9 0 0 0", "  0  0  0     0  0            999 V2000"], ["record 1 of 2 ($ % &)", "> <x>", "V3000"],
            ["bond lengths in \u00c5", "  r(C\u2013O) = 1.43 \u00c5, T = 100 K", "\u0105\u0445\u03c5 \u2160\u2164 \u6f22\u5b57 \u00e9\u00b5\u00b0"], ["converted from V3000", "", "format: V2000"],
            ["2,2':6',2\"-terpyridine", "  it's \\ a \"name", "5'-O-(4,4'-dimethoxytrityl) `x` $HOME #! %s {0}"]]
 
@@ -109,7 +109,7 @@ def vary(mol: Mol, dim: str, rng):
                                     "$$$$\n" + ctab.render_v3000(second, V3Style(), rng) + "\n$$$$"])
         st3.final_eol = rng.random() < 0.5
     elif dim == "line_endings":
-        st3.eol = rng.choice(["\r\n", "\r\n", "\r", "mixed"])
+        st3.eol = rng.choice(["\r\n", "\r\n", "\r", "mixed", "mixed-cr"])
         st3.final_eol = rng.random() < 0.5
     elif dim == "aamap_counts":
         st3.aamap = True
@@ -125,10 +125,10 @@ def vary(mol: Mol, dim: str, rng):
         st2 = V2Style(encoding="lines", dt_symbols=rng.random() < 0.5, counts_noise=(dim == "v2000_format"))
         if dim == "v2000_format":
             st2.header = rng.choice(HEADERS)
-            st2.eol = rng.choice(["\n", "\r\n", "\r", "mixed"])
+            st2.eol = rng.choice(["\n", "\r\n", "\r", "mixed", "mixed-cr"])
         if dim == "v2000_unrelated_lines":
             st2.unrelated = 0.7
-            st2.atom_lists = rng.choice([0, 2])
+            st2.atom_lists = 0  # atom lists belong to query atoms (symbol L); only C08, whose quantifier names them, renders them
             st2.stereo_fields = True
         if dim == "v2000_after_end":
             # text after "M  END": SD-file data items, a record separator, or a whole second record with its own property lines
